@@ -426,3 +426,96 @@ Proof.
   intros. rewrite word_fields_spec by reflexivity. unfold spec_fields. simpl.
   rewrite app_nil_r. symmetry. apply posix_split_spec.
 Qed.
+
+(* ---- IFS empty: nothing is ever split, wsDelim is never set ------------------------------- *)
+Lemma wsd_split_loop_nil : forall v fs s, wsd (split_loop [] v fs s) = wsd s.
+Proof.
+  induction v as [|r v IH]; intros fs s; simpl.
+  - destruct fs; reflexivity.
+  - apply IH.
+Qed.
+
+Lemma wsd_flush : forall s, wsd (flush s) = wsd s.
+Proof. intros s. unfold flush. destruct (cur s); reflexivity. Qed.
+
+Lemma wsd_at_loop : forall es first s, wsd (at_loop first es s) = wsd s.
+Proof.
+  induction es as [|e es IH]; intros first s; simpl; [reflexivity|].
+  rewrite IH. destruct first; simpl; [reflexivity|apply wsd_flush].
+Qed.
+
+Lemma wsd_ulist_loop_nil : forall es first s, wsd (ulist_loop [] first es s) = wsd s.
+Proof.
+  induction es as [|e es IH]; intros first s; simpl; [reflexivity|].
+  rewrite IH. unfold split_add. rewrite wsd_split_loop_nil.
+  destruct first; [reflexivity|apply wsd_flush].
+Qed.
+
+Lemma wsd_do_part_nil : forall i0 p s, wsd (do_part [] i0 p s) = wsd s.
+Proof.
+  intros i0 p s. destruct p as [v|v|vs|v|es|es|es]; simpl.
+  - destruct i0; reflexivity.
+  - reflexivity.
+  - destruct vs; reflexivity.
+  - apply wsd_split_loop_nil.
+  - apply wsd_at_loop.
+  - reflexivity.
+  - apply wsd_ulist_loop_nil.
+Qed.
+
+Lemma result_flush_bk : forall s l, wsd s = false -> result (flush s) l = result s (Bk :: l).
+Proof.
+  intros s l Hw. unfold result, flush, mode_of.
+  destruct (cur s) as [|c cs] eqn:E; cbn [fields cur wsd]; rewrite ?E, ?Hw; simpl.
+  - reflexivity.
+  - rewrite map_app. simpl. rewrite <- app_assoc. reflexivity.
+Qed.
+
+Lemma result_ulist_loop_nil : forall es first s l, wsd s = false ->
+  result (ulist_loop [] first es s) l = result s (ulist_syms [] first es ++ l).
+Proof.
+  induction es as [|e es IH]; intros first s l Hw; simpl; [reflexivity|].
+  rewrite IH.
+  - rewrite result_split_add. destruct first; simpl.
+    + rewrite <- app_assoc. reflexivity.
+    + rewrite result_flush_bk by exact Hw. simpl. rewrite <- app_assoc. reflexivity.
+  - unfold split_add. rewrite wsd_split_loop_nil. destruct first; [exact Hw|]. rewrite wsd_flush. exact Hw.
+Qed.
+
+Lemma result_do_part_nil : forall i0 p s l, lit_nonempty p = true -> wsd s = false ->
+  result (do_part [] i0 p s) l = result s (part_syms [] p ++ l).
+Proof.
+  intros i0 p s l Hok Hw. destruct p as [v|v|vs|v|es|es|es];
+    try (apply result_do_part; destruct v; [discriminate|reflexivity]);
+    try (apply result_do_part; reflexivity).
+  simpl. apply result_ulist_loop_nil. exact Hw.
+Qed.
+
+Lemma result_parts_loop_nil : forall ps i0 s l, forallb lit_nonempty ps = true -> wsd s = false ->
+  result (parts_loop [] i0 ps s) l = result s (flatten [] ps ++ l).
+Proof.
+  induction ps as [|p ps IH]; intros i0 s l Hok Hw; simpl.
+  - reflexivity.
+  - simpl in Hok. apply andb_prop in Hok. destruct Hok as [Hp Hps].
+    rewrite IH; [|exact Hps|rewrite wsd_do_part_nil; exact Hw].
+    rewrite result_do_part_nil by assumption. rewrite <- app_assoc. reflexivity.
+Qed.
+
+Lemma part_ok_nonempty_ifs : forall ifs p, ifs <> [] -> lit_nonempty p = true -> part_ok ifs p = true.
+Proof.
+  intros ifs p Hifs Hp. destruct p as [v|v|vs|v|es|es|es]; try reflexivity.
+  - destruct v; [discriminate|reflexivity].
+  - simpl. destruct ifs; [congruence|reflexivity].
+Qed.
+
+(* the main theorem on the full scope: only empty unquoted literals are excluded *)
+Theorem word_fields_spec_full : forall oifs ps, in_scope ps = true ->
+  word_fields oifs ps = spec_fields oifs ps.
+Proof.
+  intros oifs ps Hok. destruct (cfg_ifs oifs) as [|r ifs'] eqn:Eifs.
+  - unfold word_fields, spec_fields. rewrite Eifs. rewrite result_final.
+    rewrite result_parts_loop_nil by (try exact Hok; reflexivity). rewrite app_nil_r. reflexivity.
+  - apply word_fields_spec. unfold word_ok. rewrite Eifs.
+    unfold in_scope in Hok. rewrite forallb_forall in *. intros p Hp.
+    apply part_ok_nonempty_ifs; [discriminate|apply Hok; exact Hp].
+Qed.
